@@ -1079,3 +1079,42 @@ class C20(Base):
 
     def native_args(self, tier, seed):
         return ["native", "c20", "100" if tier == "quick" else "20000", str(seed)]
+
+
+@prop("C17")
+class C17(Base):
+    title = "every spelling of an operator computes the same value"
+    design_ref = "§6 C17"
+    ops = ["v3.sum_list", "v3.sum_list_ref", "m3.sum_list", "m3.product_list", "m3.product_list_ref", "q.sum_list",
+           "q.sum_list_ref", "q.product_list", "q.product_list_ref", "b3.product_list", "b3.product_list_ref",
+           "b2.product_list", "rad.sum_list", "rad.sum_list_ref", "deg.sum_list", "v4.sum_list", "m4.product_list"]
+    inventory = "ops"
+    technique = ("Lean 4 theorems about a model in which an operator is one function (forms erased; folds) + exhaustive native "
+                 "correspondence: every operator impl listed by a rustdoc-JSON inventory regenerated from the source is executed in "
+                 "every operand form and compared bit for bit; random straight-line programs in random forms")
+    level_note = ("Trusted: Lean kernel + Mathlib. In the model the forms are erased by construction, so the theorems are thin; the "
+                  "weight is on the tie, which executes all operand forms of all 1089 operator/Sum/Product impls (inventory "
+                  "regenerated from /repo on every run; an impl without a call site is reported) on shared operands, bit for bit.")
+
+    def native_args(self, tier, seed):
+        return ["native", "c17", "2000" if tier == "quick" else "500000", str(seed)]
+
+    def families(self, rng, tier):
+        out = []
+        for ln in range(0, 7):
+            vs = []
+            for _ in range(ln):
+                vs += rng.distinct(3)
+            out.append(Case("v3.sum_list", vs, family="fold-length"))
+            out.append(Case("v3.sum_list_ref", vs, family="fold-length"))
+            qs = []
+            for _ in range(ln):
+                qs += rng.distinct(4)
+            out.append(Case("q.product_list", qs, family="fold-length"))
+            out.append(Case("q.product_list_ref", qs, family="fold-length"))
+            ms = []
+            for _ in range(ln):
+                ms += rand_mat(rng, 3, "small")
+            out.append(Case("m3.product_list", ms, family="fold-length"))
+            out.append(Case("m3.product_list_ref", ms, family="fold-length"))
+        return out
